@@ -4,6 +4,14 @@ import json, subprocess
 
 # id -> (technique, level text, level note, design ref)
 CHECKS = {
+ "C15": ("recording Loader/Cache wrappers observing every path argument; comparison with an independent canonicalisation of the spelling; canary file outside a directory-rooted loader",
+         "Exploration: one reference per case through each of 9 entry points (GetTemplate, extends, import, include static/computed, exec static/computed, includeIfExists) from referrers at depth 0-3, with adversarial spellings and 5 extension lists; every path the Set hands to Loader and Cache is observed and must be clean and equal to the canonical path, probed in extension order; the rendered output identifies the file actually used; an OS-rooted Set must never read a canary outside its root.",
+         "Trusts path.Clean as the definition of lexically clean and the in-memory/OS loaders (C19). Backslash spellings are outside what Linux can exercise.",
+         "DESIGN.md 3/C15"),
+ "C16": ("sequential history checking against an executable model: recorded Loader/Cache traces, template pointer identity and rendered version tokens per operation",
+         "Exploration: random histories of GetTemplate/Parse/Execute(include) interleaved with edits, deletions and injected loader faults, under development/normal mode, default/recording cache and 5 extension lists; after every operation the exact loader trace, the Put list, pointer identity and the rendered versions must equal the model's prediction.",
+         "Requested names are bare base names; the aliasing between a name and name+extension is the recorded known finding K2 (directed case 0). Trusts the 60-line model.",
+         "DESIGN.md 3/C16"),
  "C19": ("history checking against executable models: recorded Set/Delete/edit/AddLoaders histories on each bundled loader, every query compared with a model (cleaned-path map, the directory tree, first holder)",
          "Exploration: random histories per loader kind; for the file-system loaders every file, directory and missing path of a generated tree is queried after every edit; for the in-memory loader all operations use adversarial spellings of a few canonical paths; for multi, loaders overlap, are added mid-history and are edited between Exists and Open.",
          "Trusts os/http.Dir/embed.FS and the 10-line models. Only clean absolute paths are used for the file-system loaders, as the property states.",
